@@ -43,3 +43,28 @@ def contract(qualname):
         cls.__contract__ = qualname
         return cls
     return deco
+
+
+# ---- set helpers (tuples of hypotheses are treated as sets) ----
+def as_set(x):
+    return frozenset(x)
+
+
+def set_remove(s, x):
+    return frozenset(y for y in s if y != x)
+
+
+def set_union(a, b):
+    return frozenset(a) | frozenset(b)
+
+
+def subset(a, b):
+    return frozenset(a) <= frozenset(b)
+
+
+def member(x, s):
+    return x in s
+
+
+def empty_set(kind=None):
+    return frozenset()
